@@ -79,6 +79,67 @@ M('herm-restart-twice', 'C05', 'restarts-bounded-by-maxit',
                 restart(nev_adj, selection);
         }''')], 'still one loop: two restarts per iteration -> more than maxit restarts')
 
+# ----------------------------------------------------------------------------- C06 / C14 / C19 / C20
+M('gen-init-keeps-niter', 'C06', 'init-rebuilds-what-compute-reads',
+  [('GenEigsBase.h', """        m_nmatop = 0;
+        m_niter = 0;
+
+        // Initialize the Arnoldi""", """        m_nmatop = 0;
+
+        // Initialize the Arnoldi""")], 'num_iterations() accumulates over runs')
+M('arnoldi-init-keeps-H', 'C06', 'init-rebuilds-what-compute-reads',
+  [('LinAlg/Arnoldi.h', """        m_fac_f.resize(m_n);
+        m_fac_H.setZero();""", """        m_fac_f.resize(m_n);""")], 'stale H entries of an earlier run survive init() (same size => resize keeps the data)')
+M('complexshift-no-restore', 'C06,C14', 'operator-not-modified-outside-constructors',
+  [('GenEigsComplexShiftSolver.h', "        ShiftRestorer restorer{m_op, m_sigmar, m_sigmai};\n", "")], 'reverts fix F2')
+M('svd-keeps-cache', 'C06,C16', 'cached-accessor-results-invalidated',
+  [('contrib/PartialSVDSolver.h', "        m_evecs.resize(0, 0);\n", "")], 'reverts fix F6')
+M('arnoldiop-cache-read-first', 'C06', 'mutable-cache-overwritten-before-read',
+  [('MatOp/internal/ArnoldiOp.h', """        m_Bop.perform_op(y.data(), m_cache.data());
+        return x.dot(m_cache);""", """        const Scalar r = x.dot(m_cache);
+        m_Bop.perform_op(y.data(), m_cache.data());
+        return r + x.dot(m_cache) - r;""")])
+M('complexsolve-writes-imag', 'C06', 'mutable-cache-overwritten-before-read',
+  [('MatOp/DenseGenComplexShiftSolve.h', """        y.noalias() = m_solver.solve(m_x_cache).real();""", """        y.noalias() = m_solver.solve(m_x_cache).real();
+        m_x_cache.imag() = y;""")], 'the imaginary half now carries the previous result into the next application')
+M('factorize-reads-whole-basis', 'C06', 'basis-read-within-current-dimension',
+  [('LinAlg/Arnoldi.h', """            m_op.adjoint_product(Vs, w, h);""", """            m_op.adjoint_product(Vs, w, h);
+            if (i == from_k)
+                h[0] += Scalar(0) * (m_fac_V.adjoint() * w)[0];""")], 'reads columns beyond the current dimension (stale / uninitialised)')
+M('init-seeds-from-opcount', 'C19,C06', 'seed-provenance',
+  [('HermEigsBase.h', "SimpleRandom<Scalar> rng(0);", "SimpleRandom<Scalar> rng(m_niter);")], 'default start vector depends on the history of the object')
+M('lcg-static-state', 'C19,C20', 'generator-effects,no-mutable-static-state',
+  [('Util/SimpleRandom.h', """    unsigned long lo, hi;
+""", """    unsigned long lo, hi;
+    static unsigned long calls = 0;
+    seed += (++calls >> 40);
+""")], 'hidden counter: the sequence is no longer a function of the seed (only after 2^40 draws -- no test sees it)')
+M('matprod-static-buffer', 'C20', 'no-mutable-static-state',
+  [('MatOp/DenseSymMatProd.h', """        MapConstVec x(x_in, m_mat.cols());""", """        static Index last_cols = 0;
+        last_cols = m_mat.cols();
+        MapConstVec x(x_in, last_cols);""")], 'shared wrapper races on a function-local static')
+M('matprod-mutable-cache', 'C20', 'shareable-wrapper-is-immutable,mutable-fields-classified',
+  [('MatOp/DenseGenMatProd.h', """    ConstGenericMatrix m_mat;
+""", """    ConstGenericMatrix m_mat;
+    mutable Index m_calls = 0;
+""")])
+M('arnoldi-catches-operator', 'C14', 'no-exception-handler-or-noexcept',
+  [('LinAlg/Arnoldi.h', """            m_op.perform_op(&m_fac_V(0, i), w.data());
+            op_counter++;""", """            try
+            {
+                m_op.perform_op(&m_fac_V(0, i), w.data());
+            }
+            catch (const std::bad_alloc&)
+            {
+                throw std::runtime_error("out of memory in operator");
+            }
+            op_counter++;""")], 'exception type changed on the way out')
+M('svd-raw-new', 'C14,C12', 'no-raw-owning-pointer',
+  [('contrib/PartialSVDSolver.h', """        m_eigs.reset(new SymEigsSolver<SVDMatOp<Scalar>>(*m_op, ncomp, ncv));""",
+    """        SymEigsSolver<SVDMatOp<Scalar>>* raw = new SymEigsSolver<SVDMatOp<Scalar>>(*m_op, ncomp, ncv);
+        raw->init();
+        m_eigs.reset(raw);""")], 'init() may throw (operator) while the solver is held by a raw pointer')
+
 # behaviour-preserving edits: every listed check must stay silent (exit 0)
 NEUTRAL = []
 
